@@ -400,7 +400,7 @@ class PayloadVENDOR(Payload):
 
     def to_dict(self):
         result = super().to_dict()
-        result['vendor_id'] = self.vendor_id.decode()
+        result['vendor_id'] = self.vendor_id.decode(errors='backslashreplace')
         return result
 
 
@@ -567,9 +567,12 @@ class PayloadID(Payload):
 
     def _id_data_str(self):
         if self.id_type in (PayloadID.Type.ID_RFC822_ADDR, PayloadID.Type.ID_FQDN):
-            return self.id_data.decode()
+            return self.id_data.decode(errors='backslashreplace')
         elif self.id_type in (PayloadID.Type.ID_IPV4_ADDR, PayloadID.Type.ID_IPV6_ADDR):
-            return str(ip_address(self.id_data)),
+            try:
+                return str(ip_address(bytes(self.id_data)))
+            except ValueError:
+                return self.id_data.hex()
         else:
             return self.id_data.hex()
 
